@@ -43,7 +43,7 @@ type Case struct {
 const (
 	pre     = 24
 	post    = 40
-	maxSize = 2000
+	maxSize = 4 << 20 // larger values are skipped
 )
 
 func fail(class, oracle, observed, expected string) *evid.Failure {
@@ -161,15 +161,57 @@ func checkCase(c Case, known func(string) bool) (f *evid.Failure, st stats) {
 			return fail("harness", "harness: replay length in range", fmt.Sprint(lo), fmt.Sprintf("0..%d", size+64)), st
 		}
 	}
+	// destination lengths: every one up to enumLimit; for larger encodings
+	// (payloads on the 2^14 / 2^21 length boundaries) a sample - the first and last 96,
+	// three around every field boundary and 64 spread over the rest
+	// (quick: Size <= 2000, as before the boundary-length payloads existed;
+	// thorough: Size <= 20000, which includes the 2^14 boundary)
+	enumLimit := 2000
+	if evid.Thorough() {
+		enumLimit = 20000
+	}
+	var lengths []int
+	if c.Only != nil || size <= enumLimit {
+		for l := lo; l <= hi; l++ {
+			lengths = append(lengths, l)
+		}
+	} else {
+		st.labels["lengths.sampled"]++
+		seen := map[int]bool{}
+		add := func(l int) {
+			if l >= 0 && l <= size+3 && !seen[l] {
+				seen[l] = true
+				lengths = append(lengths, l)
+			}
+		}
+		for l := 0; l < 96; l++ {
+			add(l)
+			add(size + 3 - l)
+		}
+		pgen.Visit(nodes, func(n *pgen.Node, _ int) {
+			if len(lengths) < 2000 {
+				for d := -1; d <= 1; d++ {
+					add(n.Start + d)
+					add(n.PayStart + d)
+				}
+			}
+		})
+		for k := 1; k <= 64; k++ {
+			add(size / 65 * k)
+		}
+		sort.Ints(lengths)
+	}
 	arena := make([]byte, pre+max(size+3, hi)+post)
-	for l := lo; l <= hi; l++ {
+	pattern := make([]byte, len(arena))
+	for i := range pattern {
+		pattern[i] = canary(i)
+	}
+	for _, l := range lengths {
 		if topMsg && l > size && known(classTopMsgCount) {
 			st.excluded[classTopMsgCount]++
 			continue
 		}
-		for i := range arena {
-			arena[i] = canary(i)
-		}
+		copy(arena, pattern)
 		dst := arena[pre : pre+l]
 		if c.CapEq {
 			dst = arena[pre : pre+l : pre+l]
@@ -207,12 +249,13 @@ func checkCase(c Case, known func(string) bool) (f *evid.Failure, st stats) {
 			return fail("panic", "MarshalTo returns"+where, "panic: "+msg+" @ "+stack, "no panic"), st
 		}
 		for i := 0; i < pre; i++ {
-			if arena[i] != canary(i) {
+			if arena[i] != pattern[i] {
 				return fail("canary", "no write before the destination"+where, fmt.Sprintf("byte at dst%+d changed", i-pre), "untouched"), st
 			}
 		}
-		for i := pre + l; i < len(arena); i++ {
-			if arena[i] != canary(i) {
+		intact := bytes.Equal(arena[pre+l:], pattern[pre+l:])
+		for i := pre + l; i < len(arena) && !intact; i++ {
+			if arena[i] != pattern[i] {
 				return fail("canary", "no write at or beyond len(b)"+where, fmt.Sprintf("byte at dst[%d] changed to %#02x", i-pre, arena[i]), "untouched"), st
 			}
 		}
@@ -412,6 +455,7 @@ func minimizeCase(c Case, f *evid.Failure) (Case, *evid.Failure) {
 func genOpts() *pgen.Opts {
 	o := pgen.OptsFor(evid.KnownActive, evid.Excluded)
 	o.Small = true
+	o.Huge = evid.Thorough()
 	o.MaxDepth = 2
 	if o.MaxRep == 0 || o.MaxRep > 12 {
 		o.MaxRep = 12 // keeps encodings within a few hundred bytes; not a known-class cap
